@@ -4,7 +4,7 @@ from . import graphs
 
 
 def call(logic, K, f, naming='int', how=0, containers='list', form='obj', F=None,
-         kripke=None, objlang=None, raw_leaves=False):
+         kripke=None, objlang=None, raw_leaves=False, fshape='list-set'):
     """Run <logic>.modelcheck on the harness model K and the tuple formula f.
 
     form: 'obj' (object of `objlang`, default the checker's own language), 'text'
@@ -29,13 +29,32 @@ def call(logic, K, f, naming='int', how=0, containers='list', form='obj', F=None
             logic, f, type(e).__name__, e))
     kw = {}
     if F is not None:
-        kw['F'] = [set(nm(i) for i in P) for P in F]
+        kw['F'] = make_F(F, nm, fshape)
+        f_before = [set(P) for P in kw['F']]
     try:
         with core.quiet():
             res = L.modelcheck(kripke, arg, **kw)
     except Exception as e:
+        if F is not None and [set(P) for P in kw['F']] != f_before:
+            return ('bad', 'the caller\'s F was modified: %r -> %r' % (f_before, kw['F']))
         return ('exc', type(e).__name__, str(e)[:200])
+    if F is not None:
+        if [set(P) for P in kw['F']] != f_before:
+            return ('bad', 'the caller\'s F was modified: %r -> %r' % (f_before, kw['F']))
     return normalise(res, back)
+
+
+def make_F(F, nm, fshape='list-set'):
+    """The fairness constraints as a caller could pass them: a list or tuple of sets or
+    frozensets of states."""
+    sets = [set(nm(i) for i in P) for P in F]
+    if fshape == 'list-frozenset':
+        return [frozenset(P) for P in sets]
+    if fshape == 'tuple-set':
+        return tuple(sets)
+    if fshape == 'tuple-frozenset':
+        return tuple(frozenset(P) for P in sets)
+    return sets
 
 
 def normalise(res, back):
